@@ -281,7 +281,7 @@ const preludeCore = `
   (ite (= e 18) 1000000000000000000 (ite (= e 19) 10000000000000000000 0)))))))))))))))))))))
 (define-fun pow256 ((e Int)) Int
   (ite (= e 0) 1 (ite (= e 1) 256 (ite (= e 2) 65536 (ite (= e 3) 16777216 (ite (= e 4) 4294967296
-  (ite (= e 5) 1099511627776 (ite (= e 6) 281474976710656 (ite (= e 7) 72057594037927936 0)))))))))
+  (ite (= e 5) 1099511627776 (ite (= e 6) 281474976710656 (ite (= e 7) 72057594037927936 (ite (= e 8) 18446744073709551616 0))))))))))
 `
 
 // Dafny-style axiomatisation of finite sequences over Int. The sort must not be
